@@ -507,3 +507,121 @@ theorem quiescent_covered {c : Cfg} {o : Node} {net : Net} (hinv : Inv c o net) 
     · rw [hq] at hm; cases hm
 
 end CModel.Gossip
+
+namespace CModel.Gossip
+
+/-! ### termination: a potential that every delivery decreases -/
+def sumTo : Nat → (Nat → Nat) → Nat
+  | 0, _ => 0
+  | n + 1, f => sumTo n f + f n
+
+theorem sumTo_congr (n : Nat) (f g : Nat → Nat) (h : ∀ j, j < n → f j = g j) : sumTo n f = sumTo n g := by
+  induction n with
+  | zero => rfl
+  | succ n ih =>
+    simp only [sumTo]
+    rw [ih (fun j hj => h j (Nat.lt_succ_of_lt hj)), h n (Nat.lt_succ_self n)]
+
+theorem sumTo_update (n : Nat) (f g : Nat → Nat) (i : Nat) (h : ∀ j, j ≠ i → f j = g j) :
+    (i < n → sumTo n g + f i = sumTo n f + g i) ∧ (n ≤ i → sumTo n g = sumTo n f) := by
+  induction n with
+  | zero => exact ⟨fun h => absurd h (Nat.not_lt_zero _), fun _ => rfl⟩
+  | succ n ih =>
+    refine ⟨fun hi => ?_, fun hi => ?_⟩
+    · simp only [sumTo]
+      by_cases e : i = n
+      · subst e
+        have := ih.2 (Nat.le_refl _)
+        omega
+      · have := ih.1 (by omega)
+        have := h n (fun x => e x.symm)
+        omega
+    · simp only [sumTo]
+      have := ih.2 (by omega)
+      have := h n (by omega)
+      omega
+
+/-- unseen nodes may still fan out: each accounts for its peer entries plus one -/
+def weight (c : Cfg) (net : Net) (i : Node) : Nat := if (net.node i).seen then 0 else (c.peers i).length + 1
+
+def potential (c : Cfg) (net : Net) : Nat := net.inflight.length + sumTo c.n (weight c net)
+
+theorem weight_setNode (c : Cfg) (net : Net) (i : Node) (st : NodeSt) (w : Nat)
+    (hw : (if st.seen then 0 else (c.peers i).length + 1) = w) :
+    (i < c.n → sumTo c.n (weight c (net.setNode i st)) + weight c net i = sumTo c.n (weight c net) + w) ∧
+    (c.n ≤ i → sumTo c.n (weight c (net.setNode i st)) = sumTo c.n (weight c net)) := by
+  have hother : ∀ j, j ≠ i → weight c net j = weight c (net.setNode i st) j := by
+    intro j hj; unfold weight; rw [node_setNode_other _ _ _ _ hj]
+  have hu := sumTo_update c.n (weight c net) (weight c (net.setNode i st)) i hother
+  have hself : weight c (net.setNode i st) i = w := by
+    unfold weight; rw [node_setNode_self]; exact hw
+  exact ⟨fun h => by have := hu.1 h; rw [hself] at this; omega, hu.2⟩
+
+theorem num_seen (L S S2 w deg : Nat) (h : S2 + w = S + 0) (hw : w = deg + 1) : L + S2 < L + 1 + S := by omega
+theorem num_same (L S S2 : Nat) (h : S2 = S) : L + S2 < L + 1 + S := by omega
+theorem num_rej (L S S2 w deg : Nat) (h : S2 + w = S + (deg + 1)) (hw : w = deg + 1) : L + S2 < L + 1 + S := by omega
+theorem num_proc (L S S2 w deg F : Nat) (h : S2 + w = S + 0) (hw : w = deg + 1) (hf : F ≤ deg) : L + F + S2 < L + 1 + S := by omega
+theorem num_proc0 (L S S2 F : Nat) (h : S2 = S) (hf : F = 0) : L + F + S2 < L + 1 + S := by omega
+
+/-- **Every delivery strictly decreases the potential** (whatever the message is and wherever it goes), so
+without new injections or duplications at most `potential` deliveries are possible: gossip terminates. -/
+theorem deliver_decreases_potential (c : Cfg) (hwf : ∀ i, c.n ≤ i → c.peers i = []) (net : Net) (k : Nat)
+    (hk : k < net.inflight.length) : potential c (deliver c net k).1 < potential c net := by
+  unfold deliver
+  have hget : net.inflight[k]? = some net.inflight[k] := List.getElem?_eq_getElem hk
+  rw [hget]
+  simp only
+  generalize net.inflight[k] = m
+  generalize hnet' : ({ net with inflight := net.inflight.eraseIdx k } : Net) = net'
+  have hlen : net'.inflight.length + 1 = net.inflight.length := by
+    rw [← hnet']; simp only [List.length_eraseIdx, hk, ↓reduceIte]; omega
+  have hnode : ∀ j, net'.node j = net.node j := by intro j; rw [← hnet']; rfl
+  have hS : sumTo c.n (weight c net') = sumTo c.n (weight c net) :=
+    sumTo_congr _ _ _ (fun j _ => by unfold weight; rw [hnode])
+  have hwold : (net'.node m.dst).seen = false → weight c net' m.dst = (c.peers m.dst).length + 1 := by
+    intro h; unfold weight; rw [h]; rfl
+  have hpot : potential c net = net'.inflight.length + 1 + sumTo c.n (weight c net') := by
+    unfold potential; omega
+  rw [hpot]
+  have hc := receive_cases c net' m
+  generalize receive c net' m = r at hc
+  cases hc with
+  | absorbed _ => show potential c net' < _; unfold potential; omega
+  | droppedSeen _ _ => show potential c net' < _; unfold potential; omega
+  | skippedListed hh hs hl =>
+    have hw := weight_setNode c net' m.dst { net'.node m.dst with seen := true } 0 rfl
+    have hwo := hwold hs
+    show (net'.setNode m.dst { net'.node m.dst with seen := true }).inflight.length +
+        sumTo c.n (weight c (net'.setNode m.dst { net'.node m.dst with seen := true })) < _
+    rw [setNode_inflight]
+    by_cases hi : m.dst < c.n
+    · exact num_seen _ _ _ _ _ (hw.1 hi) hwo
+    · exact num_same _ _ _ (hw.2 (Nat.le_of_not_lt hi))
+  | rejected hh hs hl hr =>
+    have hw := weight_setNode c net' m.dst (nodeRejected (net'.node m.dst)) ((c.peers m.dst).length + 1) rfl
+    have hwo := hwold hs
+    show (net'.setNode m.dst (nodeRejected (net'.node m.dst))).inflight.length +
+        sumTo c.n (weight c (net'.setNode m.dst (nodeRejected (net'.node m.dst)))) < _
+    rw [setNode_inflight]
+    by_cases hi : m.dst < c.n
+    · exact num_rej _ _ _ _ _ (hw.1 hi) hwo
+    · exact num_same _ _ _ (hw.2 (Nat.le_of_not_lt hi))
+  | processed hh hs hl ha hacc hadm =>
+    have hf := fanout_length_le c m.dst m.entries
+    have hw := weight_setNode c net' m.dst (nodeProcessed (net'.node m.dst) (fanout c m.dst m.entries)) 0 rfl
+    have hwo := hwold hs
+    have hsame : sumTo c.n (weight c (netProcessed c net' m)) =
+        sumTo c.n (weight c (net'.setNode m.dst (nodeProcessed (net'.node m.dst) (fanout c m.dst m.entries)))) :=
+      sumTo_congr _ _ _ (fun j _ => rfl)
+    have hinf : (netProcessed c net' m).inflight.length = net'.inflight.length + (fanout c m.dst m.entries).length := by
+      simp [netProcessed]
+    show (netProcessed c net' m).inflight.length + sumTo c.n (weight c (netProcessed c net' m)) < _
+    rw [hsame, hinf]
+    by_cases hi : m.dst < c.n
+    · exact num_proc _ _ _ _ _ _ (hw.1 hi) hwo hf
+    · have hp := hwf m.dst (Nat.le_of_not_lt hi)
+      rw [hp] at hf
+      simp only [List.length_nil, Nat.le_zero_eq] at hf
+      exact num_proc0 _ _ _ _ (hw.2 (Nat.le_of_not_lt hi)) hf
+
+end CModel.Gossip
